@@ -20,20 +20,23 @@ def sh(cmd, cwd=None, env=None, timeout=3000):
 def main():
     prop, x = sys.argv[1], sys.argv[2]
     skip_suite = '--skip-suite' in sys.argv
-    src = f'/tmp/wt-{prop}/_out'
+    rnd = sys.argv[sys.argv.index('--round') + 1] if '--round' in sys.argv else '1'
+    wtname = f'/tmp/wt-{prop}' if rnd == '1' else f'/tmp/w{rnd}-{prop}'
+    src = f'{wtname}/_out'
+    sid = f'{prop}-{x}' if rnd == '1' else f'{prop}-{rnd}{x}'
     diff = os.path.join(src, f'{x}.diff')
     demo = os.path.join(src, f'demo_{x}.py')
     assert os.path.exists(diff) and os.path.exists(demo), (diff, demo)
-    wt = tempfile.mkdtemp(prefix=f'vs-{prop}-{x}-')
+    wt = tempfile.mkdtemp(prefix=f'vs-{prop}-{rnd}{x}-')
     os.rmdir(wt)
     rc, out = sh(f'git -C /repo worktree add -q {wt} HEAD')
     assert rc == 0, out
-    meta = {'id': f'{prop}-{x}', 'property': prop, 'source': 'independent sub-agent given only the property text and a scratch worktree'}
+    meta = {'id': sid, 'round': int(rnd), 'property': prop, 'source': 'independent sub-agent given only the property text and a scratch worktree'}
     try:
         sh(f'cp /repo/src/rsatoolbox/cengine/*.so /repo/src/rsatoolbox/cengine/similarity.c {wt}/src/rsatoolbox/cengine/')
         env = dict(os.environ, PYTHONPATH=f'{wt}/src')
         demo_local = os.path.join(wt, f'_demo_{x}.py')
-        txt = open(demo).read().replace(f'/tmp/wt-{prop}', wt)
+        txt = open(demo).read().replace(wtname, wt)
         open(demo_local, 'w').write(txt)
         rc0, out0 = sh(f'{PY} {demo_local}', cwd=wt, env=env, timeout=1800)
         meta['demo_clean_exit'] = rc0
@@ -62,7 +65,7 @@ def main():
         ok = (rc0 == 0 and rc1 != 0 and (skip_suite or meta.get('suite_passed') == 340))
         meta['confirmed'] = ok
         notes = os.path.join(src, 'notes.md')
-        dst = os.path.join(VERIF, 'seeded', f'{prop}-{x}')
+        dst = os.path.join(VERIF, 'seeded', sid)
         os.makedirs(dst, exist_ok=True)
         shutil.copy(diff, os.path.join(dst, 'patch.diff'))
         shutil.copy(demo, os.path.join(dst, 'demo.py'))
